@@ -25,7 +25,7 @@ CLAIMS = {
    note="sort.Sort is trusted to call only Len/Less/Swap. gcsizes' arithmetic, Less' ordering and pad's offsets are not examined; an edit there is out of reach of this check.",
    technique="SSA must-pass-through (every loop iteration emits its element) + value-origin checks of appended elements and of the Swap stores"),
  "C13": dict(
-   text="The nilness merge table is evaluated from the constant literal in the source and all four semilattice laws plus closure are enumerated exhaustively (125 triples) — a complete decision for that clause. For the solvers and the map lattices the check decides the re-enqueue pairing and pointwise-lifting shape that a least fixpoint needs (necessary conditions on every path), not termination or leastness on all graphs.",
+   text="The nilness merge table is evaluated from the constant literal in the source and all four semilattice laws plus closure are enumerated exhaustively (125 triples) — a complete decision for that clause. For the solvers and the map lattices the check decides the re-enqueue pairing and pointwise-lifting shape that a least fixpoint needs (necessary conditions on every path), not termination or leastness on all graphs. In the sparse solver every instruction of every block is seeded into the worklist unconditionally (values with a preset state never re-enqueue their users).",
    ref="§4 C13",
    note="Assumes monotone transfer functions; trusts constant evaluation by go/types. The generic MapLattice laws for arbitrary element lattices are decided only structurally (keys of both operands, element merge on common keys, identity shortcut).",
    technique="constant-table evaluation from the AST with exhaustive law enumeration + SSA path rules (store ⇒ enqueue on all paths, guard edges)"),
@@ -60,7 +60,7 @@ CLAIMS = {
    note="'Visited' is decided as 'the field is mentioned in the clause or in the graph method the node is delegated to'; go/ast's field types are the oracle for where identifiers can occur. Two exemptions (labels) with reasons are in the checker.",
    technique="type-checked AST child-coverage analysis of type-switch clauses"),
  "C17": dict(
-   text="Decides structural necessary conditions of order independence and variant merging: map-loop bodies in package unused affect the graph only through monotone accumulators that never shrink; U1000 verdicts are emitted only after all results were merged, only under not-used-in-any-variant, 'used' is never overwritten and is recorded for every variant; used/unused keys are built from the same origins. Does not decide monotonicity of the usage rules under added references. Also decided: no map in package unused is keyed by the printed form of a go/types type or object (not injective: generic interfaces with equally named type parameters print alike).",
+   text="Decides structural necessary conditions of order independence and variant merging: map-loop bodies in package unused affect the graph only through monotone accumulators that never shrink; U1000 verdicts are emitted only after all results were merged, only under not-used-in-any-variant, 'used' is never overwritten and is recorded for every variant; used/unused keys are built from the same origins. Does not decide monotonicity of the usage rules under added references. Also decided: no map in package unused is keyed by the printed form of a go/types type or object (not injective: generic interfaces with equally named type parameters print alike). Every element of a variant's Used list is entered into the cross-variant map (no filtering by name or kind).",
    ref="§4 C17",
    note="Assumes reachability over an edge set is insertion-order independent; effect sets are closed over static callees within package unused.",
    technique="field effect sets + map-loop body analysis + guard-edge rules on SSA"),
@@ -85,22 +85,22 @@ CLAIMS = {
    note="Weak: an error inside the algorithm (semidominator computation, bucket handling) is out of reach of these rules.",
    technique="field effect sets over the static call graph + ordering queries on SSA"),
  "C15": dict(
-   text="Soundness w.r.t. executions is not decided. Decided: the absorbing element of the merge table is computed from the source and every 'don't know' funnel (pointer-like default, normalisation, function without fact, unknown/under-described callee, parameters, free variables) yields it in both components; bail-outs return the signature default; results are joined over all returns; facts are exported only after solving and normalising; SA4023 tests only definite facts.",
+   text="Soundness w.r.t. executions is not decided. Decided: the absorbing element of the merge table is computed from the source and every 'don't know' funnel (pointer-like default, normalisation, function without fact, unknown/under-described callee, parameters, free variables) yields it in both components; bail-outs return the signature default; results are joined over all returns; facts are exported only after solving and normalising; SA4023 tests only definite facts. Also decided, after four genuine defects were found there: the dense solver's re-enqueue pairing (shared with C13); the φ-nodes of a block are evaluated in parallel (all incoming values read before any φ is updated); state.get returns a recorded slot only after testing that something was recorded, so the per-kind defaults always apply; a conversion copies the operand's nilness only under IsPointerLike(operand).",
    ref="§4 C15",
    note="Weak: the truth of each transfer rule (e.g. 'dereference implies non-nil') is assumed; instruction/builtin coverage is decided under C03.",
    technique="constant struct-literal evaluation from SSA stores + guard-edge/dominance rules + merge-table evaluation"),
  "C16": dict(
-   text="Narrow structural part only: diagnostics have one producer (report.Report) whose Pos/End come from one getRange call on the reported node, getRange/shortRange anchor start and end in the same node; every analysis.TextEdit literal takes Pos and End from one ranger (or End = Pos + length); the runner converts all six positions with the same //line-aware function and file set, each from its matching source field; fixes and related information are forwarded unchanged. Whether edits parse, type-check or preserve behaviour is not decided. Also decided: the functions that render syntax with go/format hand the printer's output on verbatim (no line folding, trimming or replacing of text that is spliced into fixes).",
+   text="Narrow structural part only: diagnostics have one producer (report.Report) whose Pos/End come from one getRange call on the reported node, getRange/shortRange anchor start and end in the same node; every analysis.TextEdit literal takes Pos and End from one ranger (or End = Pos + length); the runner converts all six positions with the same //line-aware function and file set, each from its matching source field; fixes and related information are forwarded unchanged. Whether edits parse, type-check or preserve behaviour is not decided. Also decided: the functions that render syntax with go/format hand the printer's output on verbatim (no line folding, trimming or replacing of text that is spliced into fixes). Also decided: code.MayHaveSideEffects never answers 'no' on a path that skipped an operand its clause examines elsewhere; astutil.Equal pairs every part of a with the same part of b and compares every child that holds syntax (the gate and the equality used by the rewrites that merge or duplicate expressions).",
    ref="§4 C16",
    note="Manually built edit.Range{a, b} pairs (12 sites) and all replacement texts are outside these rules.",
    technique="who-may-construct/who-may-call rules + Pos/End value-origin pairing on SSA"),
  "C02": dict(
-   text="Decides structural necessary conditions of well-formed IR for all programs: Operands yields exactly the operand-holding fields of every instruction type (50 types, from the struct definitions); every removal of an instruction from a block detaches it from each operand's referrer list unless that operand is the lifted cell deleted in the same pass (per operand field); every locally created register instruction is typed on all paths before emit; control instructions are created only with the matching number of addEdge calls; φs get one slot per predecessor. Def-dominates-use and per-instruction typing of the builder's output are not decided. Also decided: a block saved from fn.currentBlock to be emitted into later (switch headers) cannot have been terminated by lowering in between (found and led to the repair of the malformed IR for `switch a && b {…}`).",
+   text="Decides structural necessary conditions of well-formed IR for all programs: Operands yields exactly the operand-holding fields of every instruction type (50 types, from the struct definitions); every removal of an instruction from a block detaches it from each operand's referrer list unless that operand is the lifted cell deleted in the same pass (per operand field); every locally created register instruction is typed on all paths before emit; control instructions are created only with the matching number of addEdge calls; φs get one slot per predecessor. Def-dominates-use and per-instruction typing of the builder's output are not decided. Also decided: a block saved from fn.currentBlock to be emitted into later (switch headers) cannot have been terminated by lowering in between (found and led to the repair of the malformed IR for `switch a && b {…}`). The block optimisations (jump threading, block fusion) never edit the graph after hasPhi() answered true for the block concerned, and each of them asks.",
    ref="§4 C02",
    note="Two reviewed exemptions (jumpThreading's degenerate If→Jump, the ssa:deferstack call) are in the checker with reasons.",
    technique="struct-field vs. method agreement (go/types + SSA) and must-pass-through path rules"),
  "C01": dict(
-   text="Translation correctness over programs × inputs is not decided (that needs translation validation). Decided are structural necessary conditions for the lifted form to equal the naive form: Operands exposes every operand-holding field (lifting rewrites uses through it); lifting treats as liftable exactly Load, DebugRef and Store-into-the-cell users, with every other and every future kind falling into the unliftable default; renaming deletes only the lifted cell, stores to it and loads/debug refs of it. Also decided: the 'location is already zero' flag that lets assign/compLit skip the clearing store of an empty or sparse composite literal is false, forwarded, or set next to the allocation of its target (a short variable declaration can re-declare existing variables).",
+   text="Translation correctness over programs × inputs is not decided (that needs translation validation). Decided are structural necessary conditions for the lifted form to equal the naive form: Operands exposes every operand-holding field (lifting rewrites uses through it); lifting treats as liftable exactly Load, DebugRef and Store-into-the-cell users, with every other and every future kind falling into the unliftable default; renaming deletes only the lifted cell, stores to it and loads/debug refs of it. Also decided: the 'location is already zero' flag that lets assign/compLit skip the clearing store of an empty or sparse composite literal is false, forwarded, or set next to the allocation of its target (a short variable declaration can re-declare existing variables). The block optimisations give up, before any edit, once hasPhi() answered true for the block concerned (threading into or fusing a φ-block changes which value the φ selects).",
    ref="§4 C01",
    note="Weak: builder lowering, φ placement, liveness pruning and block optimisation are outside these rules; no oracle beyond the structural rules.",
    technique="type-switch case analysis with path-sensitive flag evaluation + guard-edge rules on SSA"),
